@@ -904,6 +904,11 @@ func tsdCase(c *core.Ctx, r *rand.Rand) {
 				}
 			}
 		}
+		// Round 9: the decoder that just read this block is re-armed on an input without a complete block and must
+		// answer like a decoder that never held one (rejected.go)
+		if r.Intn(3) == 0 {
+			tsdRearmThenAsk(c, r, 0, dec, b.data, !b.noTime, b.start, b.end())
+		}
 		// Seek oracle pass: after Seek(s) on a re-armed decoder, slot-addressed reads of every slot >= s
 		// must equal the sequential decode (theorems tsd_seek_then_read / tsd_seek_gap).
 		if len(b.mask) >= 2 && b.mask[0] && r.Intn(2) == 0 {
@@ -1266,6 +1271,10 @@ func deltaCase(c *core.Ctx, r *rand.Rand) {
 				break
 			}
 		}
+		// Round 9: Reset on empty / cut / random bytes = a new decoder on the same bytes (rejected.go)
+		if r.Intn(3) == 0 {
+			deltaRearmThenAsk(c, r, 0, dec, data, n)
+		}
 	}
 }
 
@@ -1306,6 +1315,7 @@ func fixedOffsetCase(c *core.Ctx, r *rand.Rand) {
 		}
 	}()
 	rounds := 1 + r.Intn(4)
+	heldN, heldData := 0, []byte(nil) // the table `dec` holds right now (heldN == 0: none)
 	for round := 0; round < rounds; round++ {
 		inc := r.Intn(3) > 0
 		if enc == nil || r.Intn(3) == 0 {
@@ -1386,11 +1396,12 @@ func fixedOffsetCase(c *core.Ctx, r *rand.Rand) {
 		r.Read(junk)
 		full := append(cp(data), junk...)
 		switch k := r.Intn(3); {
-		case dec == nil || k == 0:
+		case dec == nil || (k == 0 && !(n == 0 && heldN > 0 && r.Intn(2) == 0)):
 			if dec != nil {
 				encoding.ReleaseFixedOffsetDecoder(dec)
 				c.Op("fd rel 0", "ok")
 			}
+			heldN, heldData = 0, nil
 			if r.Intn(2) == 0 {
 				c.Branch("fo-decoder-new")
 				guard(c, "fd new 0", func() string { dec = encoding.NewFixedOffsetDecoder(); return "ok" })
@@ -1400,7 +1411,7 @@ func fixedOffsetCase(c *core.Ctx, r *rand.Rand) {
 			}
 		default:
 			c.Branch("fo-decoder-reused")
-			if r.Intn(2) == 0 {
+			if r.Intn(2) == 0 && !(n == 0 && heldN > 0) {
 				c.Branch("fo-decoder-fault-before-reuse")
 				bad := make([]byte, r.Intn(8))
 				r.Read(bad)
@@ -1430,10 +1441,30 @@ func fixedOffsetCase(c *core.Ctx, r *rand.Rand) {
 		if n == 0 {
 			// stated guard: an empty table is written as nothing and is rejected by the decoder
 			c.Branch("fo-empty-table")
+			if heldN > 0 {
+				// Round 9: the EMPTY table on a decoder that holds a table: it must decode to what a fresh decoder
+				// makes of the same bytes (no offsets), not to the previous table
+				c.Branch("fo-empty-table-on-used-decoder")
+				c.NonTrivial()
+				emptyOut := "ok"
+				if uerr != nil {
+					emptyOut = foErr(uerr)
+				}
+				var fresh *encoding.FixedOffsetDecoder
+				guard(c, fmt.Sprintf("fd new %d", freshOff), func() string { fresh = encoding.NewFixedOffsetDecoder(); return "ok" })
+				foUnm(c, freshOff, fresh, full)
+				foAskBoth(c, r, 0, dec, fresh, heldN, fmt.Sprintf("that held a table of %d offsets and was then given the marshalled EMPTY table (+%d trailing bytes; Unmarshal: %s)", heldN, len(junk), emptyOut), uerr != nil)
+				c.Op(fmt.Sprintf("fd rel %d", freshOff), "ok")
+			}
+			heldN, heldData = 0, nil
 			continue
 		}
 		c.NonTrivial()
 		c.Branch(fmt.Sprintf("fo-width-%d", dec.ValueWidth()))
+		heldN, heldData = 0, nil
+		if uerr == nil {
+			heldN, heldData = n, data
+		}
 		if uerr != nil {
 			c.Fail("fo-roundtrip", fmt.Sprintf("Unmarshal of a marshalled table of %d offsets failed: %v", n, uerr))
 			continue
@@ -1483,6 +1514,12 @@ func fixedOffsetCase(c *core.Ctx, r *rand.Rand) {
 					return "ok " + hx(b)
 				})
 			}
+		}
+		// Round 9: rejected inputs on the decoder that holds this table (rejected.go); it stays in use
+		if heldN > 0 && r.Intn(2) == 0 {
+			other := []byte{2, 3, byte(r.Intn(256)), 0, byte(r.Intn(256)), 1, byte(r.Intn(256)), 2}
+			foRejectedThenAsk(c, r, 0, dec, heldData, heldN, other)
+			heldN, heldData = 0, nil
 		}
 	}
 }
@@ -2040,6 +2077,12 @@ func streamCase(c *core.Ctx, r *rand.Rand) {
 	rd2 := stream.NewReader(raw)
 	c.Op("sr new 1 "+hx(raw), "ok")
 	for k := 0; k < 8+r.Intn(12); k++ {
+		// impl-side statement of stream_reader_free_form_history: whatever errors the reads run into, Position() stays
+		// inside the buffer, a forward read never moves back, and a read that hands out bytes hands out exactly
+		// raw[position before : position after] (nothing skipped, repeated or reordered)
+		posBefore := rd2.Position()
+		forward, handsOut := true, false
+		var handed []byte
 		switch r.Intn(14) {
 		case 0:
 			guard(c, "sr byte 1", func() string { v := rd2.ReadByte(); return fmt.Sprintf("%d %s", v, srState(rd2)) })
@@ -2060,14 +2103,17 @@ func streamCase(c *core.Ctx, r *rand.Rand) {
 		case 8:
 			n := r.Intn(8) - 1
 			c.Branch("stream-read-bytes")
-			guard(c, fmt.Sprintf("sr bytes 1 %d", n), func() string { v := rd2.ReadBytes(n); return fmt.Sprintf("%s %s", hx(v), srState(rd2)) })
+			handsOut = true
+			guard(c, fmt.Sprintf("sr bytes 1 %d", n), func() string { v := rd2.ReadBytes(n); handed = v; return fmt.Sprintf("%s %s", hx(v), srState(rd2)) })
 		case 9:
 			n := r.Intn(8) - 1
 			c.Branch("stream-read-slice")
-			guard(c, fmt.Sprintf("sr slice 1 %d", n), func() string { v := rd2.ReadSlice(n); return fmt.Sprintf("%s %s", hx(v), srState(rd2)) })
+			handsOut = true
+			guard(c, fmt.Sprintf("sr slice 1 %d", n), func() string { v := rd2.ReadSlice(n); handed = v; return fmt.Sprintf("%s %s", hx(v), srState(rd2)) })
 		case 10:
 			n := r.Intn(len(raw)+4) - 1
 			c.Branch("stream-read-at")
+			forward = false
 			guard(c, fmt.Sprintf("sr at 1 %d", n), func() string { rd2.ReadAt(n); return fmt.Sprintf("- %s", srState(rd2)) })
 		case 11:
 			ch := r.Intn(256)
@@ -2075,14 +2121,31 @@ func streamCase(c *core.Ctx, r *rand.Rand) {
 				ch = int(raw[r.Intn(len(raw))])
 			}
 			c.Branch("stream-read-until")
-			guard(c, fmt.Sprintf("sr until 1 %d", ch), func() string { v := rd2.ReadUntil(byte(ch)); return fmt.Sprintf("%s %s", hx(v), srState(rd2)) })
+			handsOut = true
+			guard(c, fmt.Sprintf("sr until 1 %d", ch), func() string { v := rd2.ReadUntil(byte(ch)); handed = v; return fmt.Sprintf("%s %s", hx(v), srState(rd2)) })
 		case 12:
 			guard(c, "sr unread 1", func() string { v := rd2.UnreadSlice(); return fmt.Sprintf("%s %s", hx(v), srState(rd2)) })
 		default:
 			c.Branch("stream-reader-reset")
+			forward = false
 			guard(c, "sr reset 1 "+hx(raw), func() string { rd2.Reset(raw); return fmt.Sprintf("- %s", srState(rd2)) })
 		}
+		posAfter := rd2.Position()
+		switch {
+		case posAfter < 0 || posAfter > len(raw):
+			c.Fail("stream-reader-skips-or-repeats", fmt.Sprintf("free-form read #%d: Position()=%d outside the buffer of %d bytes", k+1, posAfter, len(raw)))
+		case forward && posAfter < posBefore:
+			c.Fail("stream-reader-skips-or-repeats", fmt.Sprintf("free-form read #%d: a forward read moved the position back from %d to %d", k+1, posBefore, posAfter))
+		case forward && handsOut && !bytes.Equal(handed, raw[posBefore:posAfter]):
+			c.Fail("stream-reader-skips-or-repeats", fmt.Sprintf("free-form read #%d (error state %s): handed out %x but consumed raw[%d:%d]=%x", k+1, sErr(rd2.Error()), handed, posBefore, posAfter, raw[posBefore:posAfter]))
+		}
+		if rd2.Error() != nil {
+			c.Branch("stream-free-form-read-with-error-pending")
+		}
 	}
+	// Round 9: the reader, in whatever state the free-form reads left it, is Reset on an empty / short / other
+	// buffer and must answer like a new reader on the same bytes (rejected.go)
+	srRearmThenAsk(c, r, 1, rd2, raw)
 	// --- TSD stream: several fields over one slot range, read back through the pooled field decoder;
 	// two readers in a row, so the second one is handed the decoder the first one released
 	n := 1 + r.Intn(20)
